@@ -596,6 +596,9 @@ fn handler_family(st: &mut Stats) {
             }
         }
     }
+    // a route pattern with a literal after its wildcard: only the part before the `*` is stripped
+    combos.push(("/p*t".into(), "/p/xt".into(), "/xt".into(), false));
+    combos.push(("/p/*.txt".into(), "/p/a/b.txt".into(), "/a/b.txt".into(), false));
     for (matches, uri, want_uri, full) in combos.iter().map(|c| (c.0.as_str(), c.1.as_str(), c.2.as_str(), c.3)) {
         for mode in ["round-robin", "random"] {
             if !full && mode == "random" {
